@@ -71,13 +71,18 @@ def complex_guard(ctx):
     for cls, fshape in CLASSES:
         for method in ('complex', 'multicomplex'):
             for what in ('complex x', 'complex valued f', 'both'):
-                for history in ('fresh object', 'after a legal call', 'built as central, method set afterwards'):
+                for history in ('fresh object', 'after a legal call', 'built as central, method set afterwards',
+                                'fresh object, full_output=True'):
                     guard_case(ctx, core, cls, fshape, method, what, history)
+    # derivative orders whose rule needs f(x) anyway (complex, n % 4 == 0) take another route through _eval_first
+    for what in ('complex x', 'complex valued f', 'both'):
+        guard_case(ctx, core, 'Derivative', None, 'complex', what, 'fresh object', nd=4)
+        guard_case(ctx, core, 'Derivative', None, 'complex', what, 'fresh object, full_output=True', nd=3)
 
 
-def guard_case(ctx, core, cls, fshape, method, what, history):
+def guard_case(ctx, core, cls, fshape, method, what, history, nd=None):
     rep = ctx.rep
-    label = '%s/%s/%s/%s' % (cls, method, what, history)
+    label = '%s/%s/%s/%s%s' % (cls, method, what, history, '' if nd is None else '/n=%d' % nd)
     n = 2
 
     def body(s):
@@ -108,7 +113,12 @@ def guard_case(ctx, core, cls, fshape, method, what, history):
             d(s.x_array((n,), 'f'))
             I.setattr(d, 'method', method)
         else:
-            d = C(f, method=method)
+            kw = {}
+            if history.endswith('full_output=True'):
+                kw['full_output'] = True
+            if nd is not None:
+                kw['n'] = nd
+            d = C(f, method=method, **kw)
         if history == 'after a legal call':
             d(s.x_array((n,), 'f'))
         state['kind'] = fk
@@ -166,6 +176,30 @@ def misuse(ctx):
             return P.interp.getattr(obj, '_derivative')(x, (), {})
         expect_value_error(rep, 'R-MISUSE', 'finite_difference.LogRule._apply', fd.relpath,
                            'Derivative(%s, n=%d, order=%d) with %d steps' % (method, n, order, steps), thunk, 'too few steps')
+    # ... for every configuration class: one step fewer than the rule has weights must be refused (the number of weights is
+    # read from the abstractly evaluated rule of the same object, not from a formula)
+    ns = (1, 2, 3, 4, 5, 6) if ctx.tier == 'quick' else tuple(range(1, 11))
+    orders = (1, 2, 3, 4) if ctx.tier == 'quick' else (1, 2, 3, 4, 5, 6, 8)
+    for method in ('central', 'forward', 'backward', 'complex'):
+        for n in ns:
+            for order in orders:
+                P = Pipeline(repo)
+                try:
+                    obj0, x0 = P.build('Derivative', method, order, n=n, step=P.sym_generator('Min'))
+                    size = P.interp.getattr(P.interp.getattr(obj0, 'fd_rule'), 'rule')(Poly.sym('r')).size
+                except (InterpRaise, AnalysisError):
+                    continue
+                if size < 2:
+                    continue
+
+                def thunk(P=P, method=method, n=n, order=order, steps=size - 1):
+                    P.clear_cache()
+                    gen = P.sym_generator('Min', num_steps=steps, check_num_steps=False)
+                    obj, x = P.build('Derivative', method, order, n=n, step=gen)
+                    return P.interp.getattr(obj, '_derivative')(x, (), {})
+                expect_value_error(rep, 'R-MISUSE', 'finite_difference.LogRule._apply', fd.relpath,
+                                   'Derivative(%s, n=%d, order=%d): rule of %d weights, %d steps' % (method, n, order, size, size - 1),
+                                   thunk, 'too few steps')
     # too few steps with an array x (the guard must count steps, not table cells)
     for cls, xshape, fshape, steps in (('Derivative', (3,), None, 1), ('Gradient', (3,), (), 1), ('Hessdiag', (2,), (), 1),
                                        ('Jacobian', (2,), (2,), 1)):
